@@ -129,14 +129,45 @@ def normal_functions(res):
                                       'impl': [float(stats.norm.cdf(z)), float(stats.norm.pdf(z)), z]})
 
 
-def latent_admissible(np, kinds, p2, R):
+_GH = {}
+
+
+def pair_latent(np, d1, d2, r):
+    """the latent correlation of one pair of marginals by an INDEPENDENT route (Gauss-Hermite product rule in a rotated frame + bracketing
+    root search), or None when no latent correlation in (-0.999, 0.999) reproduces r: the pair is then not admissible for the Nataf model
+    (e.g. an exponential and a lognormal( 0.8 ) variable cannot be correlated -0.5)"""
+    from scipy import stats, optimize
+    if 'gh' not in _GH:
+        xs, ws = np.polynomial.hermite_e.hermegauss(64)
+        _GH['gh'] = (xs, ws / ws.sum())
+    xs, ws = _GH['gh']
+    A, B = np.meshgrid(xs, xs, indexing='ij')
+    W = np.outer(ws, ws)
+    m1, s1, m2, s2 = float(d1.mean()), float(d1.std()), float(d2.mean()), float(d2.std())
+    cdf = lambda z: np.clip(stats.norm.cdf(z), 1e-300, 1.0 - 2e-16)        # (the outermost nodes carry weights below 1e-20)
+    x1 = (d1.ppf(cdf(A)) - m1) / s1
+
+    def f(rz):
+        z2 = rz * A + math.sqrt(1 - rz * rz) * B
+        x2 = (d2.ppf(cdf(z2)) - m2) / s2
+        return float(np.sum(W * x1 * x2))
+    lo, hi = f(-0.999), f(0.999)
+    if not (lo == lo and hi == hi) or not (lo + 1e-6 < r < hi - 1e-6):
+        return None
+    return float(optimize.brentq(lambda rz: f(rz) - r, -0.999, 0.999, xtol=1e-10))
+
+
+def latent_admissible(np, kinds, p2, R, dists=None):
     """does the prescribed correlation matrix lead to a positive-definite latent matrix?  Closed forms for normal / lognormal pairs; for the
-    other families the latent entry is taken as 1.25 times the prescribed one (an upper estimate).  Margin 0.02 on the smallest eigenvalue."""
+    other families the latent entry is computed by `pair_latent` when the frozen distributions are given (else taken as 1.25 times the
+    prescribed one).  Margin 0.02 on the smallest eigenvalue."""
     d = len(kinds)
 
     def lat(i1, i2):
         r = float(R[i1][i2])
         k1, k2 = kinds[i1], kinds[i2]
+        if r == 0.0:
+            return 0.0
         if k1 == 'n' and k2 == 'n':
             return r
         if {k1, k2} <= {'n', 'l'}:
@@ -147,8 +178,11 @@ def latent_admissible(np, kinds, p2, R):
                 return math.log(v) / (s1 * s2) if v > 0 else float('nan')
             sl = s1 if s1 is not None else s2
             return r * math.sqrt(math.exp(sl * sl) - 1) / sl
+        if dists is not None:
+            v = pair_latent(np, dists[i1], dists[i2], r)
+            return float('nan') if v is None else v
         return 1.25 * r
-    Zm = np.array([[1.0 if a == b2 else lat(a, b2) for b2 in range(d)] for a in range(d)], dtype=float)
+    Zm = np.array([[1.0 if a == b2 else lat(min(a, b2), max(a, b2)) for b2 in range(d)] for a in range(d)], dtype=float)
     if np.isnan(Zm).any() or (d > 1 and np.max(np.abs(Zm - np.eye(d))) >= 1.0):
         return False
     return bool(np.min(np.linalg.eigvalsh((Zm + Zm.T) / 2)) >= 0.02)
@@ -186,7 +220,7 @@ def nataf_stream(res, rng, n):
             # correlated 0.6 with two mutually uncorrelated normal ones it does not: 0.6 becomes 0.71 and 1 - 0.71 sqrt 2 < 0) - the
             # implementation is right to refuse such a problem.  Closed forms for normal / lognormal pairs; for the other families the
             # latent entry is at most about 1.25 times the prescribed one
-            if not latent_admissible(np, kinds, p2, R):
+            if not latent_admissible(np, kinds, p2, R, dists):
                 res.stat('nataf_prescribed_correlation_not_admissible_for_these_marginals')
                 continue
             res.failures.append({'signature': 'nataf-model:raised:' + json.dumps(case), 'clause': 'NatafTransformation raised on marginals and a correlation matrix '
